@@ -530,7 +530,12 @@ def rule_unit_names(run):
     run.end()
 
 
-RULES = [rule_interface, rule_port_map, rule_templates, rule_library_order, rule_defaults, rule_shared, rule_registration, rule_idset, rule_usage, rule_inherit_copy, rule_names, rule_views, rule_port_widths, rule_empty_interface, rule_unit_names]
+def rule_dynamic_ports(run):
+    from . import c11
+    c11.rule_dynamic_ports(run)   # the interface of an entity is the one of THIS build: dynamic ports of an earlier build are gone
+
+
+RULES = [rule_interface, rule_port_map, rule_templates, rule_library_order, rule_defaults, rule_shared, rule_registration, rule_idset, rule_usage, rule_inherit_copy, rule_names, rule_views, rule_port_widths, rule_empty_interface, rule_unit_names, rule_dynamic_ports]
 LEVEL = "other"
 EXPLANATION = (
     "Structural half of 'instantiating equals inlining', for all hierarchies: the emitted interface (declared ports, "
